@@ -762,8 +762,8 @@ impl ReCompiler {
                         quantifier_type = Some('*');
                     }
                     Some('{') => {
-                        // bounds are meaningless
-                        quantifier_type = Some('*')
+                        // the lower bound is meaningless, the upper bound is not
+                        self.bracket_min = 0;
                     }
                     _ => {}
                 }
